@@ -343,3 +343,103 @@ Proof.
   induction F as [|x r N _ IH]; [reflexivity|]. unfold own. cbn [filter].
   destruct (Z.eqb_spec (ss_conn x) c); [contradiction|exact IH].
 Qed.
+
+(* ------------------------------------------------------------------ one keyspace per index *)
+(* step x of a program is addressed to database i: a command other than SELECT issued -- whoever
+   the connection -- while it has i selected *)
+Definition addr_cond (i : nat) (s : server) (x : sstep) : bool :=
+  match ss_args x with
+  | [] => false
+  | _ :: _ => negb (is_select (ss_args x)) && Nat.eqb (sel_lookup (ss_conn x) (ssel s)) i
+  end.
+
+(* the commands of an interleaved program addressed to database i, each with the reply it got *)
+Fixpoint addressed (i : nat) (s : server) (p : list sstep) : list (sstep * reply) :=
+  match p with
+  | [] => []
+  | x :: r =>
+    let res := srv_exec s (ss_conn x) (ss_now x) (ss_nowms x) (ss_args x) (ss_hint x) in
+    if addr_cond i s x then (x, fst res) :: addressed i (snd res) r else addressed i (snd res) r
+  end.
+
+(* the same commands run on a single database, connection ids ignored *)
+Fixpoint db_run (d : db) (l : list sstep) : list reply * db :=
+  match l with
+  | [] => ([], d)
+  | x :: r =>
+    let '(rep, d1) := exec d (ss_now x) (ss_nowms x) (ss_args x) (ss_hint x) in
+    let '(reps, d2) := db_run d1 r in
+    (rep :: reps, d2)
+  end.
+
+Lemma db_run_cons d x r :
+  db_run d (x :: r) =
+  (fst (exec d (ss_now x) (ss_nowms x) (ss_args x) (ss_hint x))
+     :: fst (db_run (snd (exec d (ss_now x) (ss_nowms x) (ss_args x) (ss_hint x))) r),
+   snd (db_run (snd (exec d (ss_now x) (ss_nowms x) (ss_args x) (ss_hint x))) r)).
+Proof.
+  cbn. destruct (exec d (ss_now x) (ss_nowms x) (ss_args x) (ss_hint x)) as [rep d1].
+  cbn [fst snd]. destruct (db_run d1 r). reflexivity.
+Qed.
+
+Lemma exec_select_dbs s conn args : sdbs (snd (exec_select s conn args)) = sdbs s.
+Proof.
+  unfold exec_select. destruct args as [|a [|b [|c r]]]; try reflexivity.
+  destruct (atoi64 b); [|reflexivity].
+  destruct ((0 <=? z) && (z <? zlength (sdbs s))); reflexivity.
+Qed.
+
+(* one step, seen from database i *)
+Lemma srv_step_index i s x d : nth_error (sdbs s) i = Some d ->
+  let res := srv_exec s (ss_conn x) (ss_now x) (ss_nowms x) (ss_args x) (ss_hint x) in
+  let e := exec d (ss_now x) (ss_nowms x) (ss_args x) (ss_hint x) in
+  if addr_cond i s x
+  then nth_error (sdbs (snd res)) i = Some (snd e) /\ fst res = fst e
+  else nth_error (sdbs (snd res)) i = Some d.
+Proof.
+  intros G. cbv zeta. unfold addr_cond.
+  destruct (ss_args x) as [|nm rest] eqn:EA; [exact G|].
+  destruct (is_select (nm :: rest)) eqn:ES; cbn [negb andb].
+  - rewrite srv_exec_select by exact ES. rewrite exec_select_dbs. exact G.
+  - rewrite srv_exec_other by (try exact ES; discriminate).
+    destruct (Nat.eqb_spec (sel_lookup (ss_conn x) (ssel s)) i) as [Ei|Ni].
+    + rewrite Ei, G. cbn [fst snd sdbs]. split; [|reflexivity].
+      apply nth_error_update_same. apply nth_error_Some. rewrite G. discriminate.
+    + destruct (nth_error (sdbs s) (sel_lookup (ss_conn x) (ssel s))); [|exact G].
+      cbn [snd sdbs]. rewrite nth_error_update_other by (intros E; apply Ni; symmetry; exact E). exact G.
+Qed.
+
+(* Database number i is ONE keyspace shared by every connection that has selected i: after any
+   interleaved program its content is what the commands addressed to i -- in the order the server
+   executed them, whichever connections issued them -- produce on that one database, and the
+   replies those commands got are the replies of that single-database run. *)
+Theorem one_keyspace_per_index p : forall i s d,
+  nth_error (sdbs s) i = Some d ->
+  let a := addressed i s p in
+  nth_error (sdbs (snd (srv_run s p))) i = Some (snd (db_run d (map fst a))) /\
+  map snd a = fst (db_run d (map fst a)).
+Proof.
+  induction p as [|x r IH]; intros i s d G; cbv zeta; [split; [exact G|reflexivity]|].
+  rewrite srv_run_cons. cbn [snd addressed].
+  pose proof (srv_step_index i s x d G) as St. cbv zeta in St.
+  destruct (addr_cond i s x).
+  - destruct St as [G1 Er]. cbn [map fst snd]. rewrite db_run_cons. cbn [fst snd].
+    destruct (IH i _ _ G1) as [I1 I2]. split; [exact I1|]. rewrite Er, I2. reflexivity.
+  - apply IH. exact St.
+Qed.
+
+(* two-step form: what connection c2 reads in database i is what connection c1 -- any connection
+   that has i selected -- left there *)
+Theorem write_visible_same_index s c1 c2 now1 nowms1 args1 hint1 now2 nowms2 args2 hint2 d :
+  sel_lookup c1 (ssel s) = sel_lookup c2 (ssel s) ->
+  nth_error (sdbs s) (sel_lookup c1 (ssel s)) = Some d ->
+  is_select args1 = false -> args1 <> [] -> is_select args2 = false -> args2 <> [] ->
+  fst (srv_exec (snd (srv_exec s c1 now1 nowms1 args1 hint1)) c2 now2 nowms2 args2 hint2) =
+  fst (exec (snd (exec d now1 nowms1 args1 hint1)) now2 nowms2 args2 hint2).
+Proof.
+  intros E G S1 N1 S2 N2.
+  rewrite (srv_exec_other s c1) by assumption. rewrite G. cbn [snd].
+  rewrite srv_exec_other by assumption. cbn [ssel sdbs]. rewrite <- E.
+  rewrite nth_error_update_same by (apply nth_error_Some; rewrite G; discriminate).
+  reflexivity.
+Qed.
